@@ -469,7 +469,7 @@ func (db *MemDB) storeAggAttestationUnsafe(unsignedData core.UnsignedData) error
 			return errors.New("clashing data root", z.Str("existing", hex.EncodeToString(existingDataRoot[:])), z.Str("provided", hex.EncodeToString(providedDataRoot[:])))
 		}
 
-		db.aggDuties[key] = provided
+		// Keep the aggregate stored first, so that every query for this key is answered with the same data.
 	} else {
 		db.aggDuties[key] = aggAtt
 		db.aggKeysBySlot[slot] = append(db.aggKeysBySlot[slot], key)
